@@ -31,7 +31,7 @@ def build_and_test():
 
 
 def run_demo(tag):
-    demos = glob.glob(os.path.join(OUT, mut + "_demo.*"))
+    demos = [f for f in sorted(glob.glob(os.path.join(OUT, mut + "_demo.*"))) if f.endswith((".cpp", ".sh"))]     # (a demo may leave data files of that name)
     if not demos:
         return None, "no demo"
     d = demos[0]
